@@ -93,6 +93,11 @@ def cases(tier, seed):
     bs = [(j + ph) * step_b for j in range(nb + 1)] if seed else [round(j * step_b, 6) for j in range(nb + 1)]
     for m in ms:
         yield dict(kind='mef', m=m, bs=bs, rfi=('log' if int(round(m * 1000)) % 2 else 'lin'))
+    # (C1b) other increasing standard curves (the property quantifies over increasing curves, not over the library's own family):
+    # calibration lines with an offset, curves that are not zero at zero, steep and flat ones
+    for fam in ('line', 'affine-power', 'sqrt-offset', 'exp', 'log1p-offset'):
+        for rfi in ('lin', 'log'):
+            yield dict(kind='mef-curves', family=fam, rfi=rfi)
     # (C2) standard curves returned by the library's own fit (not the closed form), on samples with and without events at zero
     for table in range(3):
         for nozero in (False, True):
@@ -109,7 +114,7 @@ def cases(tier, seed):
     for i in range(0, len(upairs), 27):
         yield dict(kind='workflow', pairs=upairs[i:i + 27])
     # (D) generic transform with NumPy functions
-    for fn in ('log10', 'sqrt', 'double', 'log10p1', 'exp2'):
+    for fn in ('log10', 'sqrt', 'double', 'log10p1', 'exp2', 'log10-true', 'neg-inverse'):
         yield dict(kind='transform', fn=fn)
 
 
@@ -192,7 +197,9 @@ def curve(m, b):
 
 FNS = {'log10': lambda x: np.log10(x + 1.0) if False else np.log10(np.maximum(x, 0) + 0.5),
        'sqrt': np.sqrt, 'double': lambda x: x * 2.0, 'log10p1': lambda x: np.log10(x + 1.0),
-       'exp2': lambda x: 2.0 ** (x / 1024.0)}
+       'exp2': lambda x: 2.0 ** (x / 1024.0),
+       # increasing laws that diverge at the lower limit 0: the event sitting there goes to -inf, and so does the limit
+       'log10-true': lambda x: np.log10(x), 'neg-inverse': lambda x: -1.0 / np.asarray(x, dtype=float)}
 
 
 FORMS = ('pos', 'name', 'neg', 'mixed', 'tuple')
@@ -380,6 +387,34 @@ def run_case(c):
                         if check_limits(res, what, 'mef', d, t, sorted(set(sub)), one, 3):
                             res.ok('mef', True)
             res.sample({'kind': k, 'm': m, 'b_values': len(c['bs']), 'subsets': [[0], [1], [0, 1], [0, 1, 2], [2, 0]]})
+        elif k == 'mef-curves':
+            fam = c['family']
+            pars = [(3.0, 25.0), (0.5, 0.0), (1.0, 1e-3), (120.0, 7.5), (2.0, 1000.0)]
+            mk = {'line': lambda a, o: (lambda x: a * x + o),
+                  'affine-power': lambda a, o: (lambda x: np.sign(x) * a * np.abs(x) ** 1.1 + o),
+                  'sqrt-offset': lambda a, o: (lambda x: a * np.sqrt(np.abs(x)) * np.sign(x) + o),
+                  'exp': lambda a, o: (lambda x: a * np.exp(np.asarray(x, dtype=float) / 4000.0) + o),
+                  'log1p-offset': lambda a, o: (lambda x: a * np.log1p(np.abs(x)) * np.sign(x) + o)}[fam]
+            if c['rfi'] == 'log':
+                d0 = make_sample([1024, 1024, 256], ['4,1', '4.5,0', '0,0'])
+            else:
+                d0 = make_sample([1024, 4096, 1000], ['0,0', '0,0', '0,0'], [1, 2, None])
+            for base_label, d in (('after to_rfi (%s amplifiers)' % c['rfi'], FlowCal.transform.to_rfi(d0)), ('on the raw sample', d0)):
+                for pi, (a, o) in enumerate(pars):
+                    scs = [mk(a, o), mk(a * 1.5, o + 2.0), mk(a * 0.7, o * 0.5)]
+                    for sub in ([0], [1], [2], [0, 1, 2], [2, 0]):
+                        one = dict(c)
+                        for spelled in ('pos', 'name'):
+                            chans = spell(sub, spelled)
+                            what = 'to_mef(%s curves with scale %r offset %r, channels=%r) %s' % (fam, a, o, chans, base_label)
+                            try:
+                                t = FlowCal.transform.to_mef(d, chans, scs, [0, 1, 2])
+                            except Exception as e:
+                                res.violation('mef-curves:raises:%s' % type(e).__name__, '%s raised %s: %s' % (what, type(e).__name__, e), one)
+                                continue
+                            if check_limits(res, what, 'mef-curves:' + fam, d, t, sorted(set(sub)), one, 3):
+                                res.ok('mef-curves', True)
+            res.sample({'kind': k, 'family': fam, 'parameters': pars})
         elif k == 'mef-fitted':
             tables = [([12.0, 55.0, 260.0, 1300.0, 6000.0], [0.0, 646.0, 4827.0, 47609.0, 273006.0]),
                       ([3.0, 9.5, 30.0, 88.0, 270.0, 810.0], [120.0, 400.0, 1300.0, 4200.0, 14000.0, 45000.0]),
